@@ -126,6 +126,79 @@ fn gen(rng: &mut Rng, n: usize, tier: &str) -> Vec<String> {
         };
         out.push(format!("{} {} {}", w, l, join_nums(&ts)));
     }
+    let late = |rng: &mut Rng, dom: u64| -> String {
+        match rng.below(5) {
+            0 => "D".to_string(),
+            1 => "S".to_string(),
+            2 => "R".to_string(),
+            _ => format!("A{}", rng.below(dom + 1)),
+        }
+    };
+    // long streams: 65..200 events, most of them advancing the watermark (the history must stay the full,
+    // strictly increasing record of every advance however long the stream runs), with some late ones mixed in
+    for _ in 0..(n / 150).max(6) {
+        let len = rng.range(65, 200) as usize;
+        let step = rng.range(1, 12);
+        let mut t = rng.below(50);
+        let mut ts = Vec::with_capacity(len);
+        for _ in 0..len {
+            if rng.chance(1, 7) {
+                ts.push(t.saturating_sub(rng.below(40)));
+            } else {
+                t += rng.range(1, step);
+                ts.push(t);
+            }
+        }
+        let w = if rng.chance(1, 3) { "M".to_string() } else { format!("B{}", rng.below(6)) };
+        out.push(format!("{} {} {}", w, late(rng, 20), join_nums(&ts)));
+    }
+    // extreme timestamps: around 2^32, 2^53, 2^63 and u64::MAX, next to small ones (an end-of-stream marker
+    // offered at a small watermark; small timestamps offered at a huge watermark)
+    let big: [u64; 12] = [
+        u32::MAX as u64, (1u64 << 32) + 1, 1_700_000_000_123, (1u64 << 53) - 1, (1u64 << 53) + 1, (1u64 << 62) + 5,
+        (1u64 << 63) - 1, 1u64 << 63, (1u64 << 63) + 1, u64::MAX - 10, u64::MAX - 1, u64::MAX,
+    ];
+    for _ in 0..(n / 20).max(40) {
+        let len = rng.range(2, 8) as usize;
+        let ts: Vec<u64> = (0..len)
+            .map(|_| match rng.below(3) {
+                0 => rng.below(200),
+                1 => *rng.pick(&big),
+                _ => rng.pick(&big).saturating_sub(rng.below(20)),
+            })
+            .collect();
+        let w = match rng.below(4) {
+            0 => "M".to_string(),
+            1 => format!("B{}", rng.pick(&big)),
+            _ => format!("B{}", rng.below(30)),
+        };
+        let l = match rng.below(4) {
+            0 => format!("A{}", rng.pick(&big)),
+            _ => late(rng, 30),
+        };
+        out.push(format!("{} {} {}", w, l, join_nums(&ts)));
+    }
+    // delays that are not round numbers of milliseconds, up to several seconds (a delay is an exact number of
+    // milliseconds whatever its size), with events exactly delay / delay±1 behind the maximum
+    for _ in 0..(n / 10).max(100) {
+        let d = rng.range(999, 6000);
+        let base = rng.range(d + 10, 200_000);
+        let mut ts = vec![base];
+        for _ in 0..rng.range(1, 5) {
+            ts.push(match rng.below(5) {
+                0 => base - d,
+                1 => base - d + 1,
+                2 => base - d - 1,
+                3 => base + rng.below(3),
+                _ => base - rng.below(d + 5),
+            });
+        }
+        let l = match rng.below(3) {
+            0 => format!("A{}", rng.range(999, 6000)),
+            _ => late(rng, 50),
+        };
+        out.push(format!("B{} {} {}", d, l, join_nums(&ts)));
+    }
     out
 }
 
